@@ -293,6 +293,10 @@ def check_rel_location(spec, ctx):
             ctx.true("rel_location_index_range_overlapping", ok_idx, rel_idx)
             if ok_idx:
                 ctx.eq("rel_location_image_overlapping", sorted(set(pos[i] for i in rel_idx)), sorted(common), extra={"opt": opt})
+                if not l_overlap and exp_strand != ".":
+                    # only the QUERY overlaps itself: every base of the query inside the location has exactly one relative index, and
+                    # a base the query covers twice is reported twice (optimising blocks never drops a doubly covered base)
+                    ctx.eq("rel_location_multiset_with_self_overlapping_query", sorted(rel_idx), sorted(pos.index(p_) for p_ in qpos if p_ in common), extra={"opt": opt})
         if common and len(common) < len(set(qpos)):
             ctx.label("query_partially_outside")
     # both operands keep their own coordinate maps
